@@ -96,7 +96,7 @@ KEY_POOL = list(range(1, 41))
 # ------------------------------------------------------------------ generator
 
 def _val(rng, fn):
-    if fn == "neg" or fn == "negecho":
+    if fn in ("neg", "negecho", "eguard"):
         return rng.choice([rng.randint(0, 50), rng.randint(1, 9), rng.randint(-9, -1), rng.randint(0, 50), 0])
     if fn == "even":
         return rng.choice([rng.randint(-20, 20), 2 * rng.randint(0, 9), 2 * rng.randint(0, 9) + 1])
@@ -269,7 +269,7 @@ def _cycles_for(rng, fn, tier, h, h2=None):
                 ops += h.upd(nu, busy)
                 ops += h.add(min(na, max(room, 0)), busy)
             emit(ops)
-    if fn.startswith("echo") or fn == "negecho":
+    if fn.startswith("echo") or fn in ("negecho", "eguard"):
         for _ in range(rng.choice([1, 2, 4])):
             out.append([])
     return out
@@ -328,10 +328,10 @@ def _nest_cycles(rng, tier):
 
 
 def gen_case(rng, idx, tier, fn=None):
-    fn = fn or rng.choice(["inc", "acc", "acc", "addkey", "echo1", "echo2", "echo3", "echov", "echov", "even", "neg", "neg", "addb", "pair", "pair", "nest"])
+    fn = fn or rng.choice(["inc", "acc", "acc", "addkey", "echo1", "echo2", "echo3", "echov", "echov", "even", "neg", "neg", "eguard", "addb", "pair", "pair", "nest"])
     key = 1 if fn == "addkey" else int(rng.random() < 0.65)
     err = 0
-    if fn in ("neg", "negecho"):
+    if fn in ("neg", "negecho", "eguard"):
         err = 1 if rng.random() < 0.93 else 0
     elif fn != "nest" and rng.random() < 0.1:
         err = 1
@@ -738,6 +738,22 @@ class _Ref:
                 self.e = self.echo
                 return (self.g or 0) + 1000000 * self.e, None
             return None, None
+        if fn == "eguard":
+            # the echo node is ranked BEFORE the guard and does not depend on it: its tick and the wake-up it arms in
+            # the failing cycle are those of the fault-free run; the sum node (after the guard) misses the failing cycle
+            if at and a is not None:
+                self.e = a
+                self.echo = a + 100
+                self.wake = cyc + 2
+                if a < 0:
+                    return None, a
+                self.g = a
+                return self.g + 1000000 * self.e, None
+            if self.wake == cyc:
+                self.wake = None
+                self.e = self.echo
+                return (self.g or 0) + 1000000 * self.e, None
+            return None, None
         if fn == "addb":
             z = i["z"]
             if (at or i["zTick"]) and a is not None and z is not None:
@@ -1133,7 +1149,19 @@ def _spec(case, out):
 
 
 def monitor(stream, case, out):
+    global STRICT
     bad = _spec(case, out)[0]
+    if any(m.startswith("[C10-A]") for m in bad) and STRICT:
+        # [C10-A] is finding F6 and nothing else: the implementation must then do exactly what the LENIENT reference
+        # does (the pending echo of a child whose guard throws while the echo node is due is dropped, everything else
+        # as alone).  A trace that the lenient reference does not explain either is a different violation.
+        STRICT = False
+        try:
+            lenient = _spec(case, out)[0]
+        finally:
+            STRICT = True
+        if lenient:
+            bad = [m.replace("[C10-A]", "[C10-delta] (not explained by finding F6 either)") for m in bad]
     if any(m.startswith("[C10-B]") for m in bad):
         # a message of finding C10-B must never hide an unexplained one of the same case
         other = [m for m in bad if not m.startswith("[C10-B]")]
